@@ -14,7 +14,7 @@ RULE = ("parser-produced circuits x override dictionaries x pass sequences over 
 ASSUMPTIONS = ["a sequence in which a pass raises JaqalError is 'not applicable' and only counted",
                "reference full meaning from vf/meaning.py"]
 TIERS = {"quick": {"shards": 8, "budget_s": 75}, "thorough": {"shards": 16, "budget_s": 480}}
-REQUIRE = {"sequences-judged": 3000, "idempotence-checked": 1000, "parser-flag-combinations": 500, "reparse-checked": 3000,
+REQUIRE = {"macro-named-like-a-bounding-gate": 30, "sequences-judged": 3000, "idempotence-checked": 1000, "parser-flag-combinations": 500, "reparse-checked": 3000,
            "seq-len-4": 300}
 
 PASSES = "SLMA"
@@ -195,6 +195,17 @@ def _clauses(case):
     return {f[0] for f in j(case)[1]}
 
 
+def rename_macro(prog, old, new):
+    def rw(s):
+        if not isinstance(s, tuple):
+            return s
+        if s[0] in ("macro", "gate") and s[1] == old:
+            return (s[0], new) + tuple(rw(x) for x in s[2:])
+        return tuple(rw(x) for x in s)
+
+    return rw(prog)
+
+
 def make_override(rng, prog):
     ov = {}
     for s in prog[1:]:
@@ -256,6 +267,12 @@ def shard(ctx):
                         p_hostile_names=0.0, macro_sub=rng.random() < 0.4, p_usepulses=0.2, p_let_reg=0.4, p_let_count=0.5,
                         p_let_index=0.5, wild_numbers=rng.random() < 0.3, allow_reg_args=rng.random() < 0.3)
         prog = g.program()
+        if rng.random() < 0.12:
+            # without a gate set a macro may carry the name of a bounding gate of subcircuit blocks
+            ms = [x[1] for x in prog[1:] if x[0] == "macro"]
+            if ms:
+                prog = rename_macro(prog, rng.choice(ms), rng.choice(["prepare_all", "measure_all"]))
+                rec.count("macro-named-like-a-bounding-gate")
         ov = make_override(rng, prog) if rng.random() < 0.6 else {}
         seqs = rng.sample(SEQS, 12 if ctx.quick else 24) if (ctx.quick or i % 10) else SEQS
         for seq in seqs:
